@@ -12,6 +12,7 @@
 (* judged on recorded executions (P_RoundTrip).                               *)
 (***************************************************************************)
 EXTENDS Naturals, Sequences, TLC
+CONSTANT EnumLookup         \* how to_enum reads a string: "name-first" (pinned commit) or "value-first" (commit de78d5e; a member name only when it is no value)
 CONSTANT Variant            \* "orig": the reader retries with %z only when the text contains '+'; "fixed": for any trailing offset
 
 Kinds == {"datetime", "date", "time", "timedelta", "decimal", "uuid", "enum", "bytes", "set", "tuple", "dict", "int", "float", "str", "bool", "none"}
@@ -20,6 +21,7 @@ Shapes(k) ==
     [] k = "time"      -> {[tz |-> "naive", frac |-> f] : f \in {"none", "ms"}}                 \* millisecond precision (statement)
     [] k = "timedelta" -> {[sign |-> s, days |-> d, frac |-> f] : s \in {"pos", "neg"}, d \in BOOLEAN, f \in BOOLEAN}
     [] k = "decimal"   -> {[form |-> f] : f \in {"integral", "fractional", "beyond53"}}
+    [] k = "enum"      -> {[form |-> f] : f \in {"plain", "value-names-another-member"}}     \* class Swap(Enum): A = 'B'; B = 'A'
     [] OTHER           -> {[form |-> "plain"]}
 \* ---- encoders (encode.py) -------------------------------------------------------------------------------------------------
 Enc(k, sh) ==
@@ -31,7 +33,8 @@ Enc(k, sh) ==
                            offset |-> "none", frac |-> FALSE]
     [] k \in {"set", "tuple"} -> [lex |-> "json-array", offset |-> "none", frac |-> FALSE]
     [] k = "dict"      -> [lex |-> "json-object", offset |-> "none", frac |-> FALSE]
-    [] k \in {"uuid", "enum", "bytes", "str"} -> [lex |-> "json-string", offset |-> "none", frac |-> FALSE]
+    [] k = "enum"      -> [lex |-> IF sh.form = "plain" THEN "json-string" ELSE "json-string-naming-another-member", offset |-> "none", frac |-> FALSE]   \* the value
+    [] k \in {"uuid", "bytes", "str"} -> [lex |-> "json-string", offset |-> "none", frac |-> FALSE]
     [] OTHER           -> [lex |-> "json-native", offset |-> "none", frac |-> FALSE]
 FailD == [form |-> "FAIL"]
 \* ---- readers (transform.py): which forms they accept and what they preserve -------------------------------------------------
@@ -46,6 +49,7 @@ Dec(k, f) ==
     [] k = "timedelta" -> IF f.lex \in {"PnDTnHnMnS", "-PnDTnHnMnS"}
                             THEN [sign |-> IF f.lex = "-PnDTnHnMnS" THEN "neg" ELSE "pos", frac |-> f.frac] ELSE FailD
     [] k = "decimal" -> IF f.lex \in {"json-int", "json-float", "numeric-string"} THEN [form |-> "same-value"] ELSE FailD
+    [] k = "enum" -> IF f.lex = "json-string-naming-another-member" /\ EnumLookup = "name-first" THEN [form |-> "another-member"] ELSE [form |-> "plain"]
     [] OTHER -> [form |-> "plain"]
 \* what must survive the round trip, per kind
 Kept(k, sh) ==
